@@ -4,7 +4,7 @@ from ..gen import cfg as G
 from ..refs import ll1 as L1
 from ..refs import tree as RT
 from .. import observe as O
-from .cfg_common import CFGProp, W4
+from .cfg_common import CFGProp, W4, word_map
 
 
 def no_useless(r):
@@ -63,7 +63,9 @@ class C14(CFGProp):
                     Layer("CFG(3,2,2,<=3)", lambda: G.cfg_cases(3, 2, 2, 0, 3), rep=G.is_rep,
                           policies=["natural@plain", "1@plain"]),
                     Layer("S -> x y z + short productions for A, B", G.long_body_cases, rep=G.is_rep,
-                          policies=["natural@plain", "1@plain"])]
+                          policies=["natural@plain", "1@plain"]),
+                    Layer("CFG(2,2,2,<=3)/names:dollar", lambda: G.cfg_cases(2, 2, 2, 0, 3), rep=None,
+                          policies=["natural@dollar"])]
         few = ["natural@plain", "1@plain", "2@plain", "3@plain"]
         return [Layer("CFG(2,2,2,<=4)", lambda: G.cfg_cases(2, 2, 2, 0, 4), rep=G.is_rep),
                 Layer("CFG(2,2,3,<=3)", lambda: G.cfg_cases(2, 2, 3, 0, 3), rep=G.is_rep, policies=few),
@@ -71,7 +73,8 @@ class C14(CFGProp):
                 Layer("CFG(3,1,2,4)", lambda: G.cfg_cases(3, 1, 2, 4, 4), rep=G.is_rep, policies=few),
                 Layer("S -> x y z + short productions for A, B", G.long_body_cases, rep=G.is_rep, policies=few),
                 Layer("CFG(3,2,2,4)", lambda: G.cfg_cases(3, 2, 2, 4, 4), rep=G.is_rep, policies=few[:2]),
-                Layer("CFG(2,2,2,5)", lambda: G.cfg_cases(2, 2, 2, 5, 5), rep=G.is_rep, policies=few[:2])]
+                Layer("CFG(2,2,2,5)", lambda: G.cfg_cases(2, 2, 2, 5, 5), rep=G.is_rep, policies=few[:2]),
+                Layer("CFG(2,2,2,<=4)/names:dollar", lambda: G.cfg_cases(2, 2, 2, 0, 4), rep=None, policies=["natural@dollar", "1@dollar"])]
 
     def reference(self, case):
         r = self.ref_gram(case, "plain")
@@ -93,11 +96,22 @@ class C14(CFGProp):
         m = O.cfgmod()
         from pyformlang.cfg.llone_parser import LLOneParser
         from pyformlang.cfg.cfg import NotParsableException
-        g = ctx.call(O.build_cfg, case, "plain", "prods")
+        scheme = ctx.variant or "plain"
+        g = ctx.call(O.build_cfg, case, scheme, "prods")
         if not ctx.returns(g, "C14.build"):
             return
         g = g.value
         r = ref["g"]
+        if scheme != "plain":
+            # other spellings: the verdict and the parser only (FIRST/FOLLOW are compared under the plain names)
+            r = self.ref_gram(case, scheme)
+            to_s, _ = word_map(case, scheme)
+            v = ctx.call(LLOneParser(g).is_llone_parsable)
+            if ctx.returns(v, "C14.is_llone_parsable"):
+                ctx.expect(v.value is ref["ll1"], "C14.is_llone_parsable", got=v.value, want=ref["ll1"])
+            if ref["ll1"]:
+                self._parse(ctx, m, LLOneParser(g), r, [(to_s(w), w in ref["lang"]) for w in W4], NotParsableException)
+            return
         parser = LLOneParser(g)
         f = ctx.call(parser.get_first_set)
         if ctx.returns(f, "C14.first"):
@@ -114,10 +128,12 @@ class C14(CFGProp):
             ctx.expect(v.value is ref["ll1"], "C14.is_llone_parsable", got=v.value, want=ref["ll1"])
         if not ref["ll1"]:
             return
-        parser = LLOneParser(g)
-        for w in W4:
+        self._parse(ctx, m, LLOneParser(g), r, [(w, w in ref["lang"]) for w in W4], NotParsableException)
+
+    @staticmethod
+    def _parse(ctx, m, parser, r, words, NotParsableException):
+        for w, member in words:
             t = ctx.call(parser.get_llone_parse_tree, list(w))
-            member = w in ref["lang"]
             if t.kind == "timeout":
                 ctx.fail("C14.parse.terminates", word=w)
                 return
